@@ -11,7 +11,7 @@ import copy
 
 TRANSLATABLE = {"label", "hint", "guidance_hint", "image", "audio", "video", "big-image", "constraint_message", "required_message"}
 KNOWN_SURVEY = TRANSLATABLE | {"type", "name", "relevant", "required", "read_only", "constraint", "calculation", "default", "appearance",
-                               "parameters", "choice_filter", "repeat_count", "trigger", "save_to", "no_app_error_string"}
+                               "parameters", "choice_filter", "repeat_count", "trigger", "save_to", "no_app_error_string", "disabled"}
 KNOWN_CHOICES = {"list_name", "name", "label", "image", "audio", "video", "big-image"}
 KNOWN_SETTINGS = {"form_title", "form_id", "version", "default_language", "instance_name", "submission_url", "public_key", "style",
                   "auto_send", "auto_delete", "namespaces", "instance_xmlns", "name", "omit_instanceID", "allow_choice_duplicates"}
